@@ -609,6 +609,189 @@ theorem relock_fixpoint_partial (c : Cfg) (S : List Pkg) (L : List Text) (ctx : 
         have : y = p := hnames y (a1 y hy) p hp hyn
         exact this ▸ hy
 
+/-! ### the lock produced by `unify` for one architecture is such a `LockList` -/
+
+/-- the two loop bodies of `LockImageConfiguration` (see `resolvedOf`) -/
+def pstep (name : Text) (r2 : RArch) (prov : Text) : RArch :=
+  match matchPackageName prov with
+  | none => r2
+  | some (n, _) =>
+    let ps := sget r2.provided name
+    { r2 with provided := setT r2.provided name (if ps.contains n then ps else ps ++ [n]) }
+
+def rstep (r : RArch) (p : Pkg) : RArch :=
+  p.provides.foldl (pstep p.name) { r with
+    packages := if r.packages.contains p.name then r.packages else r.packages ++ [p.name],
+    versions := setT r.versions p.name p.version }
+
+theorem resolvedOf_eq (arch : Text) (pkgs : List Pkg) : resolvedOf arch pkgs = pkgs.foldl rstep ⟨arch, [], [], []⟩ := rfl
+
+theorem pfold_fields (name : Text) (provs : List Text) (r1 : RArch) :
+    (provs.foldl (pstep name) r1).packages = r1.packages ∧ (provs.foldl (pstep name) r1).versions = r1.versions := by
+  induction provs generalizing r1 with
+  | nil => exact ⟨rfl, rfl⟩
+  | cons pr ps ih =>
+    simp only [List.foldl_cons]
+    obtain ⟨h1, h2⟩ := ih (pstep name r1 pr)
+    rw [h1, h2]
+    unfold pstep
+    split <;> exact ⟨rfl, rfl⟩
+
+theorem rstep_fields (r : RArch) (p : Pkg) :
+    (rstep r p).packages = (if r.packages.contains p.name then r.packages else r.packages ++ [p.name]) ∧
+    (rstep r p).versions = setT r.versions p.name p.version := by
+  unfold rstep
+  exact pfold_fields _ _ _
+
+theorem mem_keys_setT {α} (m : SMap α) (k n : Text) (v : α) : n ∈ keys (setT m k v) ↔ n = k ∨ n ∈ keys m := by
+  unfold setT keys
+  split
+  · next hany =>
+    obtain ⟨e0, he0, hk⟩ := List.any_eq_true.mp hany
+    have hk' : e0.1 = k := by simpa using hk
+    simp only [List.map_map, List.mem_map, Function.comp]
+    constructor
+    · rintro ⟨e, he, rfl⟩
+      split
+      · exact Or.inl rfl
+      · exact Or.inr ⟨e, he, rfl⟩
+    · rintro (rfl | ⟨e, he, rfl⟩)
+      · exact ⟨e0, he0, by simp [hk']⟩
+      · by_cases hek : e.1 = k
+        · exact ⟨e, he, by simp [hek]⟩
+        · exact ⟨e, he, by simp [hek]⟩
+  · simp only [List.map_append, List.map_cons, List.map_nil, List.mem_append, List.mem_singleton]
+    constructor
+    · rintro (h | h)
+      · exact Or.inr h
+      · exact Or.inl h
+    · rintro (h | h)
+      · exact Or.inr h
+      · exact Or.inl h
+
+theorem rfold_spec : ∀ (pkgs : List Pkg) (r : RArch),
+    (∀ n, n ∈ (pkgs.foldl rstep r).packages ↔ n ∈ r.packages ∨ ∃ p ∈ pkgs, p.name = n) ∧
+    (∀ n, n ∈ keys (pkgs.foldl rstep r).versions ↔ n ∈ keys r.versions ∨ ∃ p ∈ pkgs, p.name = n) ∧
+    (∀ k, (∀ x ∈ pkgs, x.name ≠ k) → mget (pkgs.foldl rstep r).versions k = mget r.versions k) := by
+  intro pkgs
+  induction pkgs with
+  | nil => intro r; simp
+  | cons q qs ih =>
+    intro r
+    obtain ⟨i1, i2, i3⟩ := ih (rstep r q)
+    obtain ⟨f1, f2⟩ := rstep_fields r q
+    simp only [List.foldl_cons]
+    refine ⟨fun n => ?_, fun n => ?_, fun k hk => ?_⟩
+    · rw [i1 n, f1]
+      constructor
+      · rintro (h | ⟨p, hp, rfl⟩)
+        · split at h
+          · exact Or.inl h
+          · rcases List.mem_append.mp h with h | h
+            · exact Or.inl h
+            · exact Or.inr ⟨q, List.mem_cons_self, (List.mem_singleton.mp h).symm⟩
+        · exact Or.inr ⟨p, List.mem_cons_of_mem _ hp, rfl⟩
+      · rintro (h | ⟨p, hp, rfl⟩)
+        · left
+          split
+          · exact h
+          · exact List.mem_append_left _ h
+        · rcases List.mem_cons.mp hp with rfl | hp'
+          · left
+            split
+            · next hc => exact List.contains_iff_mem.mp hc
+            · exact List.mem_append_right _ (List.mem_singleton.mpr rfl)
+          · exact Or.inr ⟨p, hp', rfl⟩
+    · rw [i2 n, f2, mem_keys_setT]
+      constructor
+      · rintro ((rfl | h) | ⟨p, hp, rfl⟩)
+        · exact Or.inr ⟨q, List.mem_cons_self, rfl⟩
+        · exact Or.inl h
+        · exact Or.inr ⟨p, List.mem_cons_of_mem _ hp, rfl⟩
+      · rintro (h | ⟨p, hp, rfl⟩)
+        · exact Or.inl (Or.inr h)
+        · rcases List.mem_cons.mp hp with rfl | hp'
+          · exact Or.inl (Or.inl rfl)
+          · exact Or.inr ⟨p, hp', rfl⟩
+    · rw [i3 k (fun x hx => hk x (List.mem_cons_of_mem _ hx)), f2]
+      have : ¬ k = q.name := fun e => hk q List.mem_cons_self e.symm
+      simp [mget, lookupT_setT, this]
+
+/-- `LockImageConfiguration`'s `resolved` values satisfy the well-formedness the unify theorems assume -/
+theorem resolvedOf_wf (arch : Text) (pkgs : List Pkg) : WF (resolvedOf arch pkgs) := by
+  intro n
+  rw [resolvedOf_eq]
+  obtain ⟨s1, s2, _⟩ := rfold_spec pkgs ⟨arch, [], [], []⟩
+  rw [s1 n, s2 n]
+  simp [keys]
+
+theorem resolvedOf_version (arch : Text) : ∀ (pkgs : List Pkg) (r : RArch),
+    pkgs.Pairwise (fun a b => a.name ≠ b.name) → ∀ p ∈ pkgs, mget (pkgs.foldl rstep r).versions p.name = p.version := by
+  intro pkgs
+  induction pkgs with
+  | nil => intro r _ p hp; cases hp
+  | cons q qs ih =>
+    intro r hd p hp
+    obtain ⟨hq, hqs⟩ := List.pairwise_cons.mp hd
+    simp only [List.foldl_cons]
+    rcases List.mem_cons.mp hp with rfl | hp'
+    · rw [(rfold_spec qs (rstep r p)).2.2 p.name (fun x hx e => hq x hx e.symm), (rstep_fields r p).2]
+      simp [mget, lookupT_setT]
+    · exact ih _ hqs p hp'
+
+/-- the per-architecture lock of a set with distinct names is a `LockList`, provided every entry reads back as
+(name, `=`, version) — true for apk package names and versions, which contain none of `@ = < > ~ !` -/
+theorem lockOf_lockList (w : List Text) (S : List Pkg) (hd : S.Pairwise (fun a b => a.name ≠ b.name))
+    (hentry : ∀ p ∈ S, (∀ x, p.name ++ ['='] ++ p.version ++ mget (origPinned w) p.name ≠ '!' :: x) ∧
+      ∃ pin, parseConstraint (p.name ++ ['='] ++ p.version ++ mget (origPinned w) p.name) = ⟨p.name, p.version, .eq, pin⟩) :
+    LockList S (lockOf w S) := by
+  have hmem : ∀ e, e ∈ lockOf w S ↔ ∃ p ∈ S, e = p.name ++ ['='] ++ p.version ++ mget (origPinned w) p.name := by
+    intro e
+    unfold lockOf archList
+    rw [mem_sortS, List.mem_map, resolvedOf_eq]
+    obtain ⟨s1, _, _⟩ := rfold_spec S ⟨[], [], [], []⟩
+    constructor
+    · rintro ⟨n, hn, rfl⟩
+      rcases (s1 n).mp hn with h | ⟨p, hp, rfl⟩
+      · cases h
+      · exact ⟨p, hp, by simp [entry, resolvedOf_version [] S _ hd p hp]⟩
+    · rintro ⟨p, hp, rfl⟩
+      exact ⟨p.name, (s1 p.name).mpr (Or.inr ⟨p, hp, rfl⟩), by simp [entry, resolvedOf_version [] S _ hd p hp]⟩
+  constructor
+  · intro e he
+    obtain ⟨p, hp, rfl⟩ := (hmem e).mp he
+    exact ⟨(hentry p hp).1, p, hp, (hentry p hp).2⟩
+  · intro p hp
+    exact ⟨_, (hmem _).mpr ⟨p, hp, rfl⟩, (hentry p hp).2⟩
+
+/-- `relock_fixpoint_partial` for the lock `unify` actually emits for the architecture -/
+theorem relock_fixpoint_partial_lockOf (c : Cfg) (w : List Text) (S : List Pkg) (ctx : Ctx c S)
+    (hd : S.Pairwise (fun a b => a.name ≠ b.name))
+    (huniq : ∀ x ∈ c.u.all, ∀ p ∈ S, x.name = p.name → versionMatches x.version p.version = true → x = p)
+    (hentry : ∀ p ∈ S, (∀ x, p.name ++ ['='] ++ p.version ++ mget (origPinned w) p.name ≠ '!' :: x) ∧
+      ∃ pin, parseConstraint (p.name ++ ['='] ++ p.version ++ mget (origPinned w) p.name) = ⟨p.name, p.version, .eq, pin⟩)
+    (r' : Resolution) (h : resolve c (lockOf w S) [] = .ok r') : sameMembers r'.install S := by
+  refine relock_fixpoint_partial c S _ ctx ?_ huniq (lockOf_lockList w S hd hentry) r' h
+  intro p hp q hq hn
+  by_cases hpq : p = q
+  · exact hpq
+  · exfalso
+    have key : ∀ (l : List Pkg), l.Pairwise (fun a b => a.name ≠ b.name) → p ∈ l → q ∈ l → False := by
+      intro l
+      induction l with
+      | nil => intro _ h1 _; cases h1
+      | cons x xs ih =>
+        intro hpw h1 h2
+        obtain ⟨hx, hxs⟩ := List.pairwise_cons.mp hpw
+        rcases List.mem_cons.mp h1 with rfl | h1'
+        · rcases List.mem_cons.mp h2 with rfl | h2'
+          · exact hpq rfl
+          · exact hx q h2' hn
+        · rcases List.mem_cons.mp h2 with rfl | h2'
+          · exact hx p h1' hn.symm
+          · exact ih hxs h1' h2'
+    exact key S hd hp hq
+
 /-! ### F09a: the full statement is false -/
 
 def pk (id : Nat) (n v pin : String) (d : List String) : Pkg :=
